@@ -42,6 +42,8 @@ def run(repo, chk):
     R.run('PAIR', margins, repo, Soft(chk))
     R.run('TABLE', table, repo, chk)
     R.run('NEGSLICE', negslice, repo, chk)
+    R.run('EXCSET', excset, repo, chk)
+    chk.expect('EXCSET', 3)
     chk.expect('RECUR', 20)
     chk.expect('TOKEN', 4)
     chk.expect('SIBLING', 2)
@@ -51,6 +53,52 @@ def run(repo, chk):
     chk.expect('PAIR', 8)
     chk.expect('TABLE', 8)
     chk.expect('NEGSLICE', 2)
+
+
+def excset(repo, chk):
+    """The alignment attempt of the export is wrapped in a try whose handler writes the words unaligned. The fields of a line that
+    may be absent (those TextLine.__init__ defaults to None) are dereferenced inside that try; each kind of dereference of
+    None raises a known exception class (attribute access: AttributeError; subscript, len(), call, iteration: TypeError), and
+    the handler has to list every one of them - otherwise `posteriors absent` makes the export fail instead of falling back."""
+    fi = repo.func(L + ':PageLayout.to_altoxml_string')
+    init = repo.func(L + ':TextLine.__init__')
+    a = init.node.args
+    pos = a.posonlyargs + a.args
+    optional = {p_.arg for p_, d_ in zip(pos[len(pos) - len(a.defaults):], a.defaults) if isinstance(d_, ast.Constant) and d_.value is None}
+    optional |= {k.arg for k, d_ in zip(a.kwonlyargs, a.kw_defaults) if isinstance(d_, ast.Constant) and d_.value is None}
+    tries = [t for t in ast.walk(fi.node) if isinstance(t, ast.Try) and any(call_name(c) == 'align_text' for c in ast.walk(ast.Module(body=t.body, type_ignores=[])) if isinstance(c, ast.Call))]
+    need(len(tries) == 1, 'the try block around align_text not found in to_altoxml_string')
+    t = tries[0]
+    caught = set()
+    for h in t.handlers:
+        if h.type is None:
+            caught.add('BaseException')
+        else:
+            for x in (h.type.elts if isinstance(h.type, ast.Tuple) else [h.type]):
+                caught.add(dotted(x) or '?')
+    everything = bool(caught & {'Exception', 'BaseException'})
+
+    def is_field(e):
+        return isinstance(e, ast.Attribute) and isinstance(e.value, ast.Name) and e.value.id == 'line' and e.attr in optional
+    raised = {}
+    body = ast.Module(body=t.body, type_ignores=[])
+    for n in ast.walk(body):
+        if isinstance(n, ast.Attribute) and is_field(n.value):
+            raised.setdefault('AttributeError', []).append(n)
+        elif isinstance(n, ast.Subscript) and is_field(n.value):
+            raised.setdefault('TypeError', []).append(n)
+        elif isinstance(n, ast.Call) and call_name(n) in ('len', 'iter', 'zip', 'enumerate', 'list', 'dict') and any(is_field(x) for x in n.args):
+            raised.setdefault('TypeError', []).append(n)
+        elif isinstance(n, (ast.For, ast.comprehension)) and is_field(n.iter):
+            raised.setdefault('TypeError', []).append(n)
+    need(raised, 'no dereference of an optional line field inside the alignment attempt')
+    for cls, nodes in sorted(raised.items()):
+        ok = everything or cls in caught
+        chk.ob('EXCSET', fi, nodes[0], '%s from an absent line field (%s) inside the alignment attempt is caught by its handler' % (
+            cls, ', '.join(sorted({src(x.value if isinstance(x, (ast.Attribute, ast.Subscript)) else (x.args[0] if isinstance(x, ast.Call) else x.iter)) for x in nodes}))),
+            ok, 'handler catches %s' % sorted(caught), construct='handler covers %s' % cls)
+    chk.ob('EXCSET', fi, t, 'the handler of the alignment attempt writes the words unaligned (it does not re-raise)',
+           not any(isinstance(x, ast.Raise) for h in t.handlers for x in ast.walk(h)), construct='handler falls back')
 
 
 def token(repo, chk):
